@@ -1,7 +1,7 @@
 """C17 — prefix registration protocol (DESIGN §4 C17)."""
 import ast
 
-from .common import (ctx, family, returns, calls_in_ctx, reach_from_succ, site, srcs_text, resolve_call, const_bool, stmt_at, full_text, bound_args, call_arg, explore, path_texts, template_text)
+from .common import (self_attr, ctx, family, returns, calls_in_ctx, reach_from_succ, site, srcs_text, resolve_call, const_bool, stmt_at, full_text, bound_args, call_arg, explore, path_texts, template_text)
 from ..esc import esc_of, short
 from ..flow import callee_attr
 from ..loader import AnalysisError, norm
@@ -39,9 +39,95 @@ def status_tests(cx):
     return out
 
 
+LOCK_CTORS = ('Semaphore', 'BoundedSemaphore', 'Lock')
+LOOP_GETTERS = ('get_running_loop', 'get_event_loop')
+
+
+def _is_lock_ctor(e):
+    return isinstance(e, ast.Call) and ast.unparse(e.func).split('.')[-1] in LOCK_CTORS
+
+
+def lock_creations(P, mod, cls):
+    """[(function, assign stmt, attr)] for every `self.<attr> = <Semaphore|Lock>(..)` in the methods of a class (and its bases in the package)"""
+    out = []
+    classes = P.mro(mod, cls) if (mod, cls) in P.classes else [(mod, cls)]
+    for q, f in sorted(P.funcs.items()):
+        if (f.mod, f.cls) not in classes:
+            continue
+        for st in ast.walk(f.node):
+            if isinstance(st, ast.Assign) and _is_lock_ctor(st.value):
+                for t in st.targets:
+                    if self_attr(t):
+                        out.append((f, st, t.attr))
+    return out
+
+
+def lock_attrs(P, cx, wnode):
+    """names of the instance attributes holding an asyncio lock that the `async with` of wnode acquires (empty: not a lock of this object)"""
+    created = {a for (_f, _st, a) in lock_creations(P, cx.f.mod, cx.f.cls)}
+    out = set()
+    for item in wnode.ast.items:
+        e = item.context_expr
+        exprs = [s_.expr for s_ in cx.sources(wnode, e) if s_.kind == 'expr'] if isinstance(e, ast.Name) else [e]
+        for x in exprs:
+            if self_attr(x) and x.attr in created:
+                out.add(x.attr)
+            elif isinstance(x, ast.Call) and self_attr(x.func):
+                # a (reference-tree) method handing out the lock: every return is self.<attr>
+                q = resolve_call(P, cx, x)
+                if q and q in P.funcs:
+                    rets = [r.value for r in ast.walk(P.funcs[q].node) if isinstance(r, ast.Return)]
+                    if rets and all(self_attr(r) and r.attr in created for r in rets):
+                        out |= {r.attr for r in rets}
+    return out
+
+
+def loop_guard(P, f, st, attr):
+    """is the creation `st` (in function f) made once per event loop?  -> (ok, why)
+    accepted: (a) unconditionally at the top level of the per-connection coroutine main_loop; (b) under the "another loop" edge of an identity /
+    equality test between a remembered loop (self.<L>) and asyncio.get_running_loop(), with self.<L> = that loop stored in the same branch."""
+    from ..flow import ctx_of
+    if f.node.name == "__init__":
+        return False, 'it is created once per object in __init__'
+    if isinstance(f.node, ast.AsyncFunctionDef) and f.node.name == "main_loop" and st in f.node.body:
+        return True, 'created unconditionally each time main_loop (one connection, one event loop) starts'
+    cx = ctx_of(P, f.qual)
+    node = next((n for n in cx.cfg.nodes if n.ast is st), None)
+    if node is None:
+        return False, 'creation site not found in the flow graph'
+    for t in cx.cfg.nodes:
+        if t.kind != 'test' or not isinstance(t.ast, ast.Compare) or len(t.ast.ops) != 1 or \
+                not isinstance(t.ast.ops[0], (ast.Is, ast.IsNot, ast.Eq, ast.NotEq)):
+            continue
+        sides = [t.ast.left, t.ast.comparators[0]]
+
+        def is_loop(e):
+            xs = [s_.expr for s_ in cx.sources(t, e) if s_.kind == 'expr'] if isinstance(e, ast.Name) else [e]
+            return bool(xs) and all(isinstance(x, ast.Call) and ast.unparse(x.func).split('.')[-1] in LOOP_GETTERS for x in xs)
+        loops = [e for e in sides if is_loop(e)]
+        mem = [e for e in sides if self_attr(e)]
+        if len(loops) != 1 or len(mem) != 1:
+            continue
+        differ = isinstance(t.ast.ops[0], (ast.IsNot, ast.NotEq))
+        if node.id in cx.cfg.reachable(removed_edges={(t.id, differ)}):
+            continue        # also created when the loop is the remembered one
+        region = reach_from_succ(cx.cfg, t, label=differ, removed_edges={(t.id, not differ)})
+        stores = [n for n in cx.cfg.nodes if n.id in region and n.kind == 'stmt' and isinstance(n.ast, ast.Assign) and
+                  any(self_attr(x, mem[0].attr) for x in n.ast.targets)]
+        if not stores:
+            return False, f'it is re-created whenever self.{mem[0].attr} differs from the running loop, but the running loop is never remembered there: ' \
+                          'every call gets a semaphore of its own and nothing is serialised'
+        return True, f'created under `{ast.unparse(t.ast)}` (per event loop), the loop is remembered in self.{mem[0].attr}'
+    return False, 'it is not created per event loop (no test against asyncio.get_running_loop() guards the creation)'
+
+
 def run(R):
     P = R.P
     E = esc_of(P)
+    locks_used = {}
+    R.ob('C17.ORD.2', 'the test-and-advance of _last_command_timestamp happens inside the critical section that sends the command')
+    R.ob('C17.ORD.3', 'the registration semaphore is created once per event loop / connection (an asyncio lock belongs to the loop it is first '
+                      'waited on in; run_forever starts a new loop per connection), and register / unregister of one object use the same one')
     R.ob('C17.MPT.1', 'success (True) is reported only through the status_code == 200 edge of parse_response(<the reply>); '
                       'every other outcome reports False')
     R.ob('C17.ESC.1', 'neither the awaited command (Nack/timeout/cancel/validation failure) nor decoding of the response can '
@@ -147,15 +233,29 @@ def run(R):
                            f'{cx.f.path}:{line}', witness=sorted(ws)[:5])
             else:
                 R.ok('C17.ESC.1', inst, site(cx, pcalls[0]), f'parse_response may raise {[short(e) for e in pr_excs]}; all caught here')
-        # ------------------------------------------------------------ ORD.1
-        withs = [n for n in cx.cfg.nodes if n.kind == 'with' and isinstance(n.ast, ast.AsyncWith)
-                 and any('_prefix_register_semaphore' in ast.unparse(i.context_expr) for i in n.ast.items)]
+        # ------------------------------------------------------------ ORD.1 / ORD.2 / ORD.3
+        awiths = [n for n in cx.cfg.nodes if n.kind == 'with' and isinstance(n.ast, ast.AsyncWith)]
+        lock_of = {n.id: lock_attrs(P, cx, n) for n in awiths}
+        withs = [n for n in awiths if lock_of[n.id]]
         inst = f'{fq} :: inside the semaphore'
         if not withs or sn.id in cx.cfg.reachable(removed_nodes={n.id for n in withs}):
             R.fail('C17.ORD.1', inst, fq, sc, 'the command is sent without holding the registration semaphore '
                    '(concurrent commands may carry the same timestamp)', site(cx, sc))
         else:
             R.ok('C17.ORD.1', inst, site(cx, withs[0].ast))
+            locks_used.setdefault(cx.f.cls, {})[verb] = frozenset().union(*[lock_of[n.id] for n in withs])
+        stamp_nodes = [n for n in cx.cfg.nodes if n.kind in ('stmt', 'test') and n.ast is not None and
+                       any(self_attr(x, '_last_command_timestamp') for x in ast.walk(n.ast))]
+        if stamp_nodes and withs:
+            inst = f'{fq} :: timestamp bookkeeping inside the semaphore'
+            outside = cx.cfg.reachable(removed_nodes={n.id for n in withs})
+            bad = [n for n in stamp_nodes if n.id in outside]
+            if bad:
+                R.fail('C17.ORD.2', inst, fq, bad[0].ast, '_last_command_timestamp is read / advanced outside the critical section that sends the '
+                       'command: requests queued on the semaphore have all passed the "newer than the last one" test before any of them sends, '
+                       'and then send back-to-back within one clock reading', site(cx, bad[0].ast))
+            else:
+                R.ok('C17.ORD.2', inst, site(cx, stamp_nodes[0].ast))
         # ------------------------------------------------------------ LOP.1 (front-end with explicit timestamp bookkeeping)
         stamps = [n for n in cx.cfg.nodes if n.kind == 'stmt' and isinstance(n.ast, ast.Assign)
                   and any(ast.unparse(t) == 'self._last_command_timestamp' for t in n.ast.targets)]
@@ -246,7 +346,32 @@ def run(R):
                 R.fail('C17.PRV.1', inst, fq, construct, what, site(cx, construct))
         else:
             R.ok('C17.PRV.1', inst, site(cx, sc))
+    for cls_name, by_verb in sorted(locks_used.items()):
+        fqs = [fq for (fq, _v, _m, _r, _a) in FUNCS if fq.split('.')[-2] == cls_name]
+        f0 = P.funcs[fqs[0]]
+        inst = f'{f0.mod}.{cls_name} :: one semaphore for register and unregister'
+        if len(set(by_verb.values())) != 1 or len(by_verb) != 2:
+            R.fail('C17.ORD.3', inst, fqs[0], 'def register', f'register / unregister hold different locks: { {k: sorted(v) for k, v in by_verb.items()} }',
+                   f'{f0.path}:{f0.node.lineno}')
+        else:
+            R.ok('C17.ORD.3', inst, f'{f0.path}:{f0.node.lineno}', f'both hold self.{sorted(next(iter(by_verb.values())))}')
+        attrs = set().union(*by_verb.values())
+        seen_sites = set()
+        for (f, st, a) in lock_creations(P, f0.mod, cls_name):
+            if a not in attrs or (f.path, st.lineno) in seen_sites:
+                continue
+            seen_sites.add((f.path, st.lineno))
+            ok, why = loop_guard(P, f, st, a)
+            inst = f'{f0.mod}.{cls_name} :: self.{a} created per event loop'
+            if ok:
+                R.ok('C17.ORD.3', inst, f'{f.path}:{st.lineno}', why)
+            else:
+                R.fail('C17.ORD.3', inst, f.qual, st, f'the registration semaphore self.{a}: {why}. Once two registrations have overlapped it is bound to '
+                       'the event loop of that connection; in the loop of the next connection (run_forever again) the first overlapping registration '
+                       'raises RuntimeError ("bound to a different event loop"): register() raises instead of reporting a bool and the routes declared '
+                       'before connecting are not registered', f'{f.path}:{st.lineno}')
     R.minimum('C17.ORD.1', 4)
+    R.minimum('C17.ORD.3', 4)
     R.minimum('C17.MPT.1', 4)
 
     # ---------------------------------------------------------------- make_command_v2 / make_command shape
